@@ -324,6 +324,12 @@ def write_evidence(pid, tier, t0, coverage, assumptions, violations, level="mode
     tmp = os.path.join(EVID, pid + ".json.tmp")
     json.dump(ev, open(tmp, "w"), indent=1)
     os.replace(tmp, os.path.join(EVID, pid + ".json"))
+    if not violations:
+        # a replay file left by an earlier violating run must not outlive a clean verdict
+        try:
+            os.remove(os.path.join(EVID, pid + ".replay.json"))
+        except OSError:
+            pass
     return ev
 
 
